@@ -5,6 +5,8 @@ import Genq.Model.Files
 import Genq.Model.GenSkel
 import Genq.Extracted.Gen
 import Genq.Proofs.Lines
+import Genq.Model.ConvSkel
+import Genq.Extracted.Conv
 namespace Genq.Files
 
 /-- **C17_collect_perm** — enumerating the same files in another order gives the validator and
@@ -103,3 +105,10 @@ example : clean "query Q { f }".toList := by
   rcases hc with h | h | h | h | h | h | h | h | h | h | h | h | h <;> subst h <;> decide
 
 end Genq.Lines
+
+namespace Genq
+
+/-- **C17_parse_tie** — getAndValidateQueries / getQueries / getQueriesFromString / getQueriesFromGo, as in /repo now (regenerated on every run), equal to the copy the model was written from -/
+theorem C17_parse_tie : Extracted.parseSkeleton = ConvSkel.parseSkeleton := rfl
+
+end Genq
